@@ -32,6 +32,7 @@ pub fn run(tier: Tier, seed: u64) -> i32 {
     parameters(&ev, tier, seed);
     proof_canonicity(&ev, tier, seed);
     ev.floor("key round trips", ev.bucket_get("key_roundtrips"), tier.pick(30, 300));
+    ev.floor("label lengths (0 .. 5000 bytes)", ev.set_len("label_lengths") as u64, 8);
     ev.floor("decoded prover proves identically", ev.bucket_get("same_proof_after_decode"), tier.pick(30, 300));
     ev.floor("verifier decisions compared", ev.bucket_get("decisions_compared"), tier.pick(3000, 30000));
     ev.floor("decisions: accepts", ev.bucket_get("decision.accept"), 30);
@@ -51,7 +52,18 @@ fn keys(ev: &Ev, tier: Tier, seed: u64) {
         let rows = if tier == Tier::Thorough && ci % 40 == 39 { 4000 } else { rows };
         let mut cfg = GenCfg::all();
         cfg.heavy = rows >= 500;
-        let spec = match common::specimen(&mut rng, &cfg, rows, format!("c16-{ci}").as_bytes()) {
+        // labels of many lengths (the encodings carry the label behind a length field)
+        let label: Vec<u8> = {
+            let len = [6usize, 0, 255, 256, 300, 1024, 5000, 65][ci as usize % 8];
+            let mut l = format!("c16-{ci}-").into_bytes();
+            while l.len() < len {
+                l.push(b'a' + (l.len() % 26) as u8);
+            }
+            l.truncate(len.max(if len == 0 { 0 } else { 1 }));
+            l
+        };
+        ev.set_insert("label_lengths", label.len());
+        let spec = match common::specimen(&mut rng, &cfg, rows, &label) {
             Ok(s) => s,
             Err(e) => {
                 ev.violation("C16:specimen-failed", json!({"error": e}));
